@@ -130,6 +130,10 @@ def job(jc, spec):
         cls = SStr([ord('L')] + chars + [ord(';')])
         meth = 'm'
         pre.append(z3.BoolVal(True))
+    elif what == 'rawclass':
+        # any string as the class descriptor (a DEX file may hold a type descriptor that is not of the form L...;)
+        cls = SStr(chars)
+        meth = 'm'
     else:
         cls = 'LA;'
         meth = SStr(chars)
@@ -169,6 +173,7 @@ def run(ctx):
     ncls = 6 if ctx.thorough else 5
     nm = 5 if ctx.thorough else 4
     ctx.bounds = dict(class_body='0..%d symbolic characters (any BMP character except NUL) between L and ;' % ncls,
+                      raw_class_descriptor='1..%d symbolic characters as the whole descriptor (not necessarily of the form L...;)' % ncls,
                       method_name='1..%d symbolic characters' % nm, output_dir=OUT, form='png')
     ctx.stubs = ['recording os.makedirs / open / method2format (every created path is captured as a symbolic string)',
                  'posixpath model (join/split), os.path.exists = False', 'SymRe', 'stub session/vm/method objects around the '
@@ -180,8 +185,9 @@ def run(ctx):
     cases = [['class', 'A/B'], ['class', '../../x'], ['class', './a'], ['class', 'a//b'], ['class', '/abs'],
              ['method', 'm'], ['method', '../../../../x'], ['method', 'a/b']]
     ctx.diff_unhooked(sys.modules[__name__], cases)
-    jobs = [('class', n) for n in range(1, ncls + 1)] + [('method', n) for n in range(1, nm + 1)]
-    ctx.expect_reach(['class', 'method'])
+    jobs = [('class', n) for n in range(1, ncls + 1)] + [('method', n) for n in range(1, nm + 1)] + \
+           [('rawclass', n) for n in range(1, ncls + 1)]
+    ctx.expect_reach(['class', 'method', 'rawclass'])
     ctx.pmap(job, jobs)
 
 
@@ -212,8 +218,8 @@ def _run_concrete(what, name):
     else:
         main.os.created = []
     try:
-        cls = 'L%s;' % name if what == 'class' else 'LA;'
-        m = Method(dex, cls, 'm' if what == 'class' else name)
+        cls = 'L%s;' % name if what == 'class' else (name if what == 'rawclass' else 'LA;')
+        m = Method(dex, cls, 'm' if what in ('class', 'rawclass') else name)
         main.export_apps_to_format('in.dex', Session(VM([m])), OUT, form='png')
     finally:
         if not hooked:
